@@ -291,8 +291,16 @@ func (c19) Run(ctx *Ctx, ci interface{}) (o Outcome) {
 			ref := ss[op.I%n]
 			for _, s := range ss {
 				s.NumMutationsComparedToReferenceSequence(t.bag.Alphabet(), ref)
-				s.ListMutationsComparedToReferenceSequence(t.bag.Alphabet(), ref, false)
-				s.ListMutationsComparedToReferenceSequence(t.bag.Alphabet(), ref, true) // codon by codon
+				for _, aa := range []bool{false, true} { // per residue, and codon by codon
+					ms, _ := s.ListMutationsComparedToReferenceSequence(t.bag.Alphabet(), ref, aa)
+					for k := range ms {
+						// the list is the caller's: its entries may be edited and grown
+						if len(ms[k].Alt) > 0 {
+							ms[k].Alt[0] = '#'
+						}
+						ms[k].Alt = append(ms[k].Alt, '#', '#')
+					}
+				}
 				_ = s.NumGaps()
 				_ = s.NumGapsFromStart()
 				_ = s.NumGapsFromEnd()
